@@ -418,7 +418,20 @@ struct G
         int budget = cfg.max_gdecls;
         int ni = 1, nx = 1, nc = 1;
         while (budget-- > 0) {
-            switch (rng.below(14)) {
+            switch (rng.below(15)) {
+            case 14: {
+                // the built-in prologue (INT8_MIN ..., int8_t ..., M_PI ...) is declared by the library before every model,
+                // through a different route for XML and for XTA input
+                std::string n = "gu" + std::to_string(uniq++);
+                switch (rng.below(5)) {
+                case 0: add(var("int8_t " + n + ";", n)); sc.ints.push_back(n); break;
+                case 1: add(var("const int " + n + " = INT16_MAX;", n)); sc.rints.push_back(n); break;
+                case 2: add(var("int[0,UINT8_MAX] " + n + ";", n)); sc.ints.push_back(n); break;
+                case 3: add(var("uint16_t " + n + " = 7;", n)); sc.ints.push_back(n); break;
+                default: add(var("const double " + n + " = M_PI;", n)); break;
+                }
+                break;
+            }
             case 0: {
                 std::string n = "gi" + std::to_string(ni++);
                 if (rng.chance(0.5)) {
